@@ -181,19 +181,27 @@ func (m *monC20) run(w *World, q *QuerySpec) ([]item, map[string]string, uint64,
 	c20w = w
 	want := map[string]string{}
 	actor := AddrOf(w.Actors, q.A).String()
+	// sp: how the request spells an address (filters name accounts; the upper-case bech32 spelling
+	// names the same account)
+	sp := func(a string) string {
+		if q.Up {
+			return strings.ToUpper(a)
+		}
+		return a
+	}
 	var f pageFn
 	switch q.Kind {
 	case "ent.orders":
 		req := &enttypes.QueryEnterpriseUndPurchaseOrdersRequest{}
 		if q.Filter == "purchaser" || q.Filter == "both" {
-			req.Purchaser = actor
+			req.Purchaser = sp(actor)
 		}
 		if q.Filter == "status" || q.Filter == "both" {
 			req.Status = enttypes.PurchaseOrderStatus(1 + q.A%4)
 		}
 		for _, id := range m.snap.Ent.orderIds() {
 			o := m.snap.Ent.Orders[id]
-			if req.Purchaser != "" && o.Purchaser != req.Purchaser {
+			if req.Purchaser != "" && o.Purchaser != actor {
 				continue
 			}
 			if req.Status != 0 && o.Status != int(req.Status) {
@@ -292,7 +300,7 @@ func (m *monC20) run(w *World, q *QuerySpec) ([]item, map[string]string, uint64,
 			var out []item
 			if q.Kind == "wrk.list" {
 				var resp wrkchaintypes.QueryWrkChainsFilteredResponse
-				if err := abciQuery(w, "/mainchain.wrkchain.v1.Query/WrkChainsFiltered", &wrkchaintypes.QueryWrkChainsFilteredRequest{Owner: owner, Moniker: moniker, Pagination: pr}, &resp); err != nil {
+				if err := abciQuery(w, "/mainchain.wrkchain.v1.Query/WrkChainsFiltered", &wrkchaintypes.QueryWrkChainsFilteredRequest{Owner: sp(owner), Moniker: moniker, Pagination: pr}, &resp); err != nil {
 					return nil, nil, err
 				}
 				for _, c := range resp.Wrkchains {
@@ -301,7 +309,7 @@ func (m *monC20) run(w *World, q *QuerySpec) ([]item, map[string]string, uint64,
 				return out, resp.Pagination, nil
 			}
 			var resp beacontypes.QueryBeaconsFilteredResponse
-			if err := abciQuery(w, "/mainchain.beacon.v1.Query/BeaconsFiltered", &beacontypes.QueryBeaconsFilteredRequest{Owner: owner, Moniker: moniker, Pagination: pr}, &resp); err != nil {
+			if err := abciQuery(w, "/mainchain.beacon.v1.Query/BeaconsFiltered", &beacontypes.QueryBeaconsFilteredRequest{Owner: sp(owner), Moniker: moniker, Pagination: pr}, &resp); err != nil {
 				return nil, nil, err
 			}
 			for _, c := range resp.Beacons {
@@ -346,13 +354,13 @@ func (m *monC20) run(w *World, q *QuerySpec) ([]item, map[string]string, uint64,
 				streams, pres = resp.Streams, resp.Pagination
 			case "str.by_sender":
 				var resp streamtypes.QueryAllStreamsForSenderResponse
-				if err := abciQuery(w, "/mainchain.stream.v1.Query/AllStreamsForSender", &streamtypes.QueryAllStreamsForSenderRequest{SenderAddr: addr, Pagination: pr}, &resp); err != nil {
+				if err := abciQuery(w, "/mainchain.stream.v1.Query/AllStreamsForSender", &streamtypes.QueryAllStreamsForSenderRequest{SenderAddr: sp(addr), Pagination: pr}, &resp); err != nil {
 					return nil, nil, err
 				}
 				streams, pres = resp.Streams, resp.Pagination
 			default:
 				var resp streamtypes.QueryAllStreamsForReceiverResponse
-				if err := abciQuery(w, "/mainchain.stream.v1.Query/AllStreamsForReceiver", &streamtypes.QueryAllStreamsForReceiverRequest{ReceiverAddr: addr, Pagination: pr}, &resp); err != nil {
+				if err := abciQuery(w, "/mainchain.stream.v1.Query/AllStreamsForReceiver", &streamtypes.QueryAllStreamsForReceiverRequest{ReceiverAddr: sp(addr), Pagination: pr}, &resp); err != nil {
 					return nil, nil, err
 				}
 				streams, pres = resp.Streams, resp.Pagination
